@@ -1,8 +1,110 @@
 import Driver.Proto
-/-! driver handlers for property C12 (ops `model.*`, `spec.*`, `trig.*`) -/
+import Verif.Model.Stream
+import Verif.Gen.Wrappers
+/-! driver handlers for property C12 (ops `model.c12.*`) -/
 namespace Verif.Driver.C12
-open Verif Verif.Driver
+open Verif Verif.Driver Verif.Skel Verif.Model.Stream
 
-def handlers : List (String × Handler) := []
+def sk : WSkel := Verif.Gen.Wrappers.skel
+
+def decErr (b : Bytes) : Except String (Option Err) :=
+  let s := String.ofList (bytesToChars b)
+  if s == "nil" then .ok none
+  else if s == "notexist" then .ok (some .notExist)
+  else if s == "closedpipe" then .ok (some .closedPipe)
+  else if s == "min" then .ok (some (.minifier 0))
+  else .error s!"bad error code {s}"
+
+def encErr : Option Err → String
+  | none => "nil" | some .notExist => "notexist" | some .closedPipe => "closedpipe" | some (.minifier _) => "min"
+
+def decWEvent (g : List Bytes) : Except String WEvent :=
+  match g with
+  | [tag] =>
+    let t := String.ofList (bytesToChars tag)
+    if t == "ccall" then .ok .ccall else .error s!"bad event {t}"
+  | [tag, d] =>
+    let t := String.ofList (bytesToChars tag)
+    if t == "wcall" then .ok (.wcall d)
+    else if t == "out" then .ok (.out d)
+    else if t == "wret" then .ok (.wret (d == strBytes "1"))
+    else if t == "cret" then do let e ← decErr d; .ok (.cret e)
+    else .error s!"bad event {t}"
+  | _ => .error "bad event group"
+
+/-- `model.c12.acceptsW kind events out err exists` → 1/0: is the observed event sequence of a real
+    `m.Writer` (`kind = writer`) / `responseWriter` (`kind = rw`) run a run of the transition system
+    interpreted from the regenerated skeleton, for a minifier that produces `out`, `err`
+    (`exists = 0`: no minifier registered)? -/
+def acceptsWH : Handler := fun args => do
+  let kind ← argChars args 0
+  let gs ← argGroups args 1
+  let evs ← gs.mapM decWEvent
+  let out ← argBytes args 2
+  let err ← (argBytes args 3 >>= decErr)
+  let ex ← argBool args 4
+  let mf : Option MinFn := if ex then some (fun _ => (out, err)) else none
+  if String.ofList kind == "rw" then .ok (boolBytes (acceptsRW sk mf evs))
+  else .ok (boolBytes (acceptsW sk mf evs))
+
+def decREvent (g : List Bytes) : Except String REvent :=
+  match g with
+  | [tag] =>
+    if tag == strBytes "srceof" then .ok .srcEOF else .error "bad event"
+  | [tag, d] =>
+    if tag == strBytes "done" then do let e ← decErr d; .ok (.done e) else .error "bad event"
+  | [tag, n, d] =>
+    if tag == strBytes "read" then
+      match parseIntChars (bytesToChars n) with
+      | some v => .ok (.read v.toNat d)
+      | none => .error "bad read size"
+    else .error "bad event"
+  | _ => .error "bad event group"
+
+/-- `model.c12.acceptsR events out err` → 1/0 for an observed `m.Reader` run -/
+def acceptsRH : Handler := fun args => do
+  let gs ← argGroups args 0
+  let evs ← gs.mapM decREvent
+  let out ← argBytes args 1
+  let err ← (argBytes args 2 >>= decErr)
+  .ok (boolBytes (acceptsR sk out err evs))
+
+/-- `model.c12.pick contentType extType` → media type the response writer matches on -/
+def pickH : Handler := fun args => do
+  let ct ← argChars args 0
+  let ext ← argChars args 1
+  .ok (strBytes (pickMediatype sk (String.ofList ct) (String.ofList ext)))
+
+/-- `model.c12.whdr names` → header names forwarded by WriteHeader (`!` if never forwarded) -/
+def whdrH : Handler := fun args => do
+  let l ← argList args 0
+  match writeHeader sk (l.map (fun b => String.ofList (bytesToChars b))) with
+  | some r => .ok (listReply (r.map strBytes))
+  | none => .error "status never forwarded"
+
+/-- `model.c12.bytes v out err exists` → `[result, error]` of `m.Bytes` / `m.String` -/
+def bytesH : Handler := fun args => do
+  let v ← argBytes args 0
+  let out ← argBytes args 1
+  let err ← (argBytes args 2 >>= decErr)
+  let ex ← argBool args 3
+  let mf : Option MinFn := if ex then some (fun _ => (out, err)) else none
+  match bytesVia sk.bytes mf v, bytesVia sk.string mf v with
+  | some (b, e), some (b2, e2) =>
+    if b == b2 && e == e2 then .ok (listReply [b, strBytes (encErr e)]) else .error "Bytes and String skeletons differ"
+  | _, _ => .error "unrecognised Bytes/String skeleton"
+
+/-- `model.c12.wf` → are the regenerated skeleton and reader-use facts well-formed -/
+def wfH : Handler := fun _ =>
+  .ok (boolBytes (wfSkel sk && wfInputUses Verif.Gen.Wrappers.inputUses))
+
+/-- `model.c12.via chunks` → concatenation (what a well-formed leaf minifier sees of a chunked stream) -/
+def viaH : Handler := fun args => do
+  let cs ← argList args 0
+  .ok (readAll cs)
+
+def handlers : List (String × Handler) :=
+  [("model.c12.acceptsW", acceptsWH), ("model.c12.acceptsR", acceptsRH), ("model.c12.pick", pickH),
+   ("model.c12.whdr", whdrH), ("model.c12.bytes", bytesH), ("model.c12.wf", wfH), ("model.c12.via", viaH)]
 
 end Verif.Driver.C12
